@@ -18,7 +18,9 @@ spec fn file_post<ID>(id: ID, fr: ParseFileResult<ID>, defined: Map<String, Reso
     &&& (fr.ast is None ==> out.ast is None && out.diagnostics == fr.diagnostics)
     &&& (fr.ast is Some ==> out.ast is Some)
     // C03: validation never drops a stored diagnostic (the final list is a permutation of stored ++ appended)
-    &&& (fr.ast is Some ==> exists |pre: Seq<Diagnostic>| #[trigger] pre.to_multiset() == out.diagnostics@.to_multiset() && prefix_kept(fr.diagnostics@, pre))
+    // C11: ... which keeps the generation order of diagnostics that start at the same position (stable)
+    &&& (fr.ast is Some ==> exists |pre: Seq<Diagnostic>| #[trigger] pre.to_multiset() == out.diagnostics@.to_multiset() && prefix_kept(fr.diagnostics@, pre)
+            && stable_sorted(pre, out.diagnostics@, |d: Diagnostic| start_key(d)))
     // C11: ascending order of start position
     &&& (fr.ast is Some ==> sorted_by_start(out.diagnostics@))
 }
